@@ -649,6 +649,7 @@ func runNode(c *Ctx) {
 	c.Rule = "random block trees built from real signed blocks on a reference node, delivered to the node under test in random permutations interleaved with verification messages; a case is one (tree, delivery order, vote schedule); distinct by its op-line sequence"
 	if c.Replay != "" {
 		replayNode(c, c.ReplayLines())
+		closeParkedNodes()
 		return
 	}
 	if lines := c.CorpusLines(); len(lines) > 0 {
@@ -657,6 +658,7 @@ func runNode(c *Ctx) {
 	for i := 0; i < c.N; i++ {
 		runNodeCase(c, mode, c.Seed, i)
 	}
+	closeParkedNodes()
 }
 
 // runNodeCase generates and runs case number k of a seed. Every case has its own PRNG
